@@ -223,6 +223,14 @@ func init() {
 		add(&CLICase{What: "args", Args: []string{"-d"}, WantExit: 16, Cell_: "argv1 -d"})
 		add(&CLICase{What: "args", Src: good, Args: []string{"-d", "in.nas"}, WantExit: 16, Cell_: "argv2 -d source-only"})
 		add(&CLICase{What: "args", Src: []byte{}, Args: []string{"in.nas", "out.bin"}, WantExit: 0, Ref: []byte{}, Cell_: "argv2 empty-source"})
+		// the same path scenarios with a source that selects the COFF writer (it creates the file on its own)
+		coffSrc := []byte("[FORMAT \"WCOFF\"]\n[BITS 32]\n[FILE \"obj.nas\"]\n\tGLOBAL _io_hlt\n[SECTION .text]\n_io_hlt:\n\tHLT\n\tRET\n")
+		add(&CLICase{What: "args", Src: coffSrc, Args: []string{"in.nas", "nodir/out.obj"}, WantExit: 17, Cell_: "argv2 coff output-in-missing-directory"})
+		add(&CLICase{What: "args", Src: coffSrc, Setup: "outdir", Args: []string{"in.nas", "out.bin"}, WantExit: 17, Cell_: "argv2 coff output-is-directory"})
+		add(&CLICase{What: "args", Src: coffSrc, Args: []string{"in.nas", ""}, WantExit: 17, Cell_: "argv2 coff empty-output-name"})
+		add(&CLICase{What: "args", Src: coffSrc, Args: []string{"in.nas"}, WantExit: 16, Cell_: "argv1 coff source-only"})
+		add(&CLICase{What: "same-as-api", Src: coffSrc, Prefill: bytes.Repeat([]byte{0x55}, 4000), Cell_: "same-as-api coff destination-prefilled"})
+		add(&CLICase{What: "failing-run", Src: []byte("[FORMAT \"WCOFF\"]\n[BITS 32]\n\tGLOBAL _f\n_f:\n\tJMP {{\n"), Prefill: bytes.Repeat([]byte("OLD!"), 300), WantExit: -1, Cell_: "failing coff pass2-template-error prefilled"})
 		// --- programs through the CLI versus the in-process API
 		nprog := 120
 		if env.Tier == "thorough" {
